@@ -5,6 +5,7 @@
 //                | u<o><ms><n> (waittill_timeout) | v<o><ms><n>+ (waittill_any_timeout)
 //                | e<o><n> (endon) | d<o> (delete) | s<o> (level.o<o> = spawn Listener)
 //                | th[ <instr>* ] (thread) | wt[ <instr>* ] (local.r = waitthread) | end | end<v>
+//                | wg[ <instr>* | <instr>* .. ] (waitthread applied to a group of fresh Listeners, receiver k runs program k)
 //         T <dt>       advance the clock
 //         X            ScriptContext::Execute()
 //   out:  m <prints|-> idle=<0|1> ns=<scripts> nt=<threads> tm=<0|1> sz=<RegisterSize a,b,c of o0,o1,o2>
@@ -18,18 +19,38 @@ using namespace mfuse;
 struct Gen {
     std::vector<std::string> labels;   // finished label bodies
     int next = 0;
+    std::string term;                  // the token that ended the last body: "]" or "|" or ""
 
-    // returns the label name of the program that starts at toks[pos]; advances pos past its "]"
-    std::string program(const std::vector<std::string>& toks, size_t& pos, bool top)
+    // the statements of the program that starts at toks[pos]; advances pos past its "]" / "|"
+    std::string body(const std::vector<std::string>& toks, size_t& pos)
     {
-        const std::string label = top ? "main" : "L" + std::to_string(next++);
-        std::string src = label + ":\nlocal.id = level.ntid\nlevel.ntid = level.ntid + 1\n";
+        std::string src;
         char buf[96];
+        term = "";
         while (pos < toks.size()) {
             const std::string w = toks[pos++];
-            if (w == "]") break;
+            if (w == "]" || w == "|") { term = w; break; }
             if (w == "th[") { const std::string l = program(toks, pos, false); src += "thread " + l + "\n"; }
             else if (w == "wt[") { const std::string l = program(toks, pos, false); src += "local.r = waitthread " + l + "\n"; }
+            else if (w == "wg[") {
+                // one label for all receivers; receiver k (self.k) runs program k
+                const std::string label = "L" + std::to_string(next++);
+                std::string lab = label + ":\nlocal.id = level.ntid\nlevel.ntid = level.ntid + 1\n";
+                std::string grp;
+                int k = 0;
+                do {
+                    const std::string b = body(toks, pos);
+                    lab += "if (self.k == " + std::to_string(k) + ") {\n" + b + "end\n}\n";
+                    src += "local.g" + std::to_string(k) + " = spawn Listener\nlocal.g" + std::to_string(k) + ".k = " + std::to_string(k) + "\n";
+                    grp += (k ? "::" : "") + std::string("local.g") + std::to_string(k);
+                    ++k;
+                } while (term == "|");
+                lab += "end\n";
+                labels.push_back(lab);
+                if (k == 1) src += "local.g0 waitthread " + label + "\n";
+                else src += "local.grp = " + grp + "\nlocal.grp waitthread " + label + "\n";
+                term = "";
+            }
             else if (w == "end") src += "end\n";
             else if (w.rfind("end", 0) == 0) src += "end " + w.substr(3) + "\n";
             else if (w == "r") src += "println (local.id + \":r\")\nprintln local.r\n";
@@ -58,6 +79,15 @@ struct Gen {
             else if (w[0] == 'd') src += std::string("level.o") + w[1] + " delete\n";
             else if (w[0] == 's') src += std::string("level.o") + w[1] + " = spawn Listener\n";
         }
+        return src;
+    }
+
+    // returns the label name of the program that starts at toks[pos]; advances pos past its "]"
+    std::string program(const std::vector<std::string>& toks, size_t& pos, bool top)
+    {
+        const std::string label = top ? "main" : "L" + std::to_string(next++);
+        std::string src = label + ":\nlocal.id = level.ntid\nlevel.ntid = level.ntid + 1\n";
+        src += body(toks, pos);
         src += "end\n";
         labels.push_back(src);
         return label;
